@@ -117,6 +117,14 @@ GroupVerdicts(k) ==
                    IN IF cnt("?") = 0 /\ (IF weakFirst THEN cnt("c1") > cnt("c2") /\ cnt("c2") > cnt("c3")
                                                         ELSE cnt("c3") > cnt("c2") /\ cnt("c2") > cnt("c1"))
                       THEN {} ELSE {Fail("C15", "probability-ordering-frequencies", "")})
+          ELSE IF rel = "c18freq" THEN
+             (IF ~IsGroupLast(k) THEN {}
+              ELSE LET ref(j) == LET rs == IF Trace[j].status = 200 /\ Len(BiasEvents(Trace[j])) >= 1
+                                           THEN ConcealRefs(Trace[j], 1, ReqBiases(Trace[j])[1]) ELSE {} IN
+                                 IF Cardinality(rs) = 1 THEN CHOOSE c \in rs : TRUE ELSE "?"
+                       cnt(c) == Cardinality({j \in f..k : ref(j) = c})
+                   IN IF cnt("?") = 0 /\ C18FreqOK(o.case.group.strategy, cnt("c1"), cnt("c2"), cnt("c3"), k - f + 1)
+                      THEN {} ELSE {Fail("C18", "reference-strategy-frequencies", "")})
           ELSE IF rel = "samereq" THEN
              (IF \A j \in f..(k - 1) : Trace[j].case.reqkey = o.case.reqkey => (Trace[j].status = o.status /\ Trace[j].resp = o.resp)
               THEN {} ELSE {Fail(o.case.group.p, "history-dependent", "")})
